@@ -227,7 +227,40 @@ def c12():
                 ASSUME_TRACE)
 
 
-CHECKS = {"C01": c01, "C02": c02, "C03": c03, "C04": c04, "C05": c05, "C12": c12, "C13": c13}
+def c09():
+    t0 = time.time()
+    wd = workdir("C09")
+    rng = rng_for("C09", 0)
+    progs = []
+    ks = ["K1b", "K3", "K5"] if core.tier() == "quick" else ["K1", "K1b", "K2", "K3", "K4b", "K5", "K5b"]
+    for kname in ks:
+        progs.append(gen.fault_program("flt-%s" % kname, gen.K(kname), CS[kname]))
+    # plus a few random histories (short, so that the enumeration stays affordable)
+    for i in range(scale(3, 30)):
+        kname = rng.choice(["K1b", "K2", "K5"])
+        p = gen.ns_program(rng, "flt-ns-%s-%d" % (kname, i), gen.K(kname), 14, gen.NAMES_ASCII[:5])
+        progs.append(p)
+        p = gen.io_program(rng, "flt-io-%s-%d" % (kname, i), gen.K(kname), CS[kname], 14, n_files=1)
+        progs.append(p)
+    parts = []
+    for p in progs:
+        p["cfg"] = dict(p["cfg"], budget=20000)
+        m = 6 if p["id"].count("-") == 1 else 2      # the long fixed history is split finer
+        for j in range(m):
+            q = dict(p)
+            q["fault_part"] = [j, m]
+            q["id"] = "%s.%d" % (p["id"], j)
+            parts.append(q)
+    res = [("faults", core.campaign("faults", parts, wd, spec="TraceFault", mode="faults", n_shards=min(len(parts), 14), jvms=6))]
+    core.finish("C09", "fault_enumeration", res, None, t0,
+                "for every operation of representative and random histories on FAT12/16/32, every position k of its device-call sequence is failed once "
+                "(exhaustive single-fault enumeration, device-call budget for non-termination); TLC judges each outcome with TraceFault; distinct = "
+                "(operation, outcome, failing call kind, in-destructor) shapes",
+                ["the drop-depth hook attributes device calls issued from File/FileSystem destructors correctly",
+                 "single faults only; a fault is an error return of one device call (no short transfers, no silent corruption)"])
+
+
+CHECKS = {"C09": c09, "C01": c01, "C02": c02, "C03": c03, "C04": c04, "C05": c05, "C12": c12, "C13": c13}
 
 
 def run(prop):
